@@ -294,8 +294,9 @@ def seq_setview_facts(st: St, sq: SSeq) -> St:
             return z3.ForAll(vs, body)
     elem_at = z3.simplify(sq.arr[j])
     st = st.fact(q([j], z3.Implies(z3.And(j >= 0, j < sq.n), sq.setview[elem_at]), [sq.arr[j]]))
-    st = st.fact(q([x], z3.Implies(sq.setview[x], z3.And(pos(x) >= 0, pos(x) < sq.n, sq.arr[pos(x)] == x)),
-                   [pos(x), sq.setview[x]]))
+    memb = S.beta(sq.setview[x])
+    st = st.fact(q([x], z3.Implies(memb, z3.And(pos(x) >= 0, pos(x) < sq.n, sq.arr[pos(x)] == x)),
+                   [pos(x), sq.setview[x]] + S._direct_apps(x, memb)[:2]))
     return st
 
 
